@@ -1566,8 +1566,14 @@ impl Node {
                         .map(|m| {
                             let mut ps = m.partitions.clone();
                             ps.sort();
+                            // the member's own count must be the length of its list
+                            let bad = if m.partitions_count as usize != m.partitions.len() {
+                                format!("+BADCOUNT{}", m.partitions_count)
+                            } else {
+                                String::new()
+                            };
                             format!(
-                                "{}={}",
+                                "{}={}{bad}",
                                 m.id,
                                 ps.iter()
                                     .map(|p| p.to_string())
